@@ -902,4 +902,87 @@ class GeometryOps(Harness):
         return None if got == exp else f"Geometry({genome}).{op} of {I}: {got}, expected {exp}"
 
 
-HARNESSES = [Coords(), GenomeOps(), Binned(), ValuesUnderIntervals(), GeometryOps()]
+class MapLocations(Harness):
+    """locations mapped into intervals (GenomicIntervals.map_locations / coordinate_mapping.find_indices): a location belongs to an
+    interval iff it is on the interval's chromosome and start <= position < stop; never a location of the neighbouring chromosome"""
+    name = "map_locations"
+    functions = ("GenomicIntervals.map_locations", "coordinate_mapping.find_indices", "GlobalOffset.from_local_interval/from_local_coordinates")
+    assumptions = ("locations sorted in genome order (searchsorted precondition)",)
+    bounds = {"quick": "genomes {chr1:3,chr10:2} and {chr1:2,chr10:1,chr2:3}; 1-2 intervals and 1-3 locations on chosen chromosomes (incl. an interval "
+                       "ending at a chromosome end with a location at 0 of the next chromosome); symbolic start/stop/position",
+              "thorough": "3 intervals, 4 locations"}
+
+    def skeletons(self, tier, seed):
+        out = []
+        combos = {"g2": [([0], [0]), ([0], [0, 1]), ([1], [0, 1]), ([0, 1], [0, 1]), ([0, 0], [0, 0, 1]), ([1, 0], [0, 1, 1])],
+                  "g3": [([0], [0, 1, 2]), ([1], [0, 1, 2]), ([0, 2], [1, 2]), ([2, 1], [0, 2, 2])]}
+        if tier == "thorough":
+            combos["g2"] += [([0, 1, 0], [0, 0, 1, 1]), ([0, 0, 1], [0, 1, 1])]
+            combos["g3"] += [([0, 1, 2], [0, 1, 2, 2]), ([2, 0, 1], [0, 0, 1, 2])]
+        for g, sets in combos.items():
+            for ivs, locs in sets:
+                out.append(dict(genome=g, ivs=ivs, locs=locs))
+        return out
+
+    def inputs(self, skel, V):
+        from checks.C09 import GENOMES as G9
+        sizes = list(G9[skel["genome"]].values())
+        for i, c in enumerate(skel["ivs"]):
+            s = V.int(f"s{i}", 0, sizes[c]); e = V.int(f"e{i}", 0, sizes[c])
+            V.assume(s.t < e.t)
+        for j, c in enumerate(skel["locs"]):
+            p_ = V.int(f"p{j}", 0, sizes[c] - 1)
+            if j and skel["locs"][j - 1] == c:
+                V.assume(V.vars[f"p{j-1}"].t <= p_.t)
+
+    def call(self, skel, x, ctx):
+        import bionumpy as bnp
+        from checks.C09 import GENOMES as G9
+        from bionumpy.datatypes import Interval, LocationEntry
+        genome = G9[skel["genome"]]
+        names = list(genome)
+        g = bnp.Genome.from_dict(dict(genome))
+        n, m = len(skel["ivs"]), len(skel["locs"])
+        iv = Interval([names[c] for c in skel["ivs"]], ctx.arr([x[f"s{i}"] for i in range(n)], "int64"),
+                      ctx.arr([x[f"e{i}"] for i in range(n)], "int64"))
+        gi = g.get_intervals(iv)
+        loc = LocationEntry([names[c] for c in skel["locs"]], ctx.arr([x[f"p{j}"] for j in range(m)], "int64"))
+        r = gi.map_locations(loc)
+        return dict(chrom=[str(v) for v in r.chromosome.tolist()], pos=ctx.lst(r.position))
+
+    def post(self, skel, x, out):
+        if isinstance(out, Exc):
+            return False
+        K = len(out["pos"])
+        if len(out["chrom"]) != K:
+            return False
+        pairs = []          # in output order: interval by interval, its locations in order
+        for i, ci in enumerate(skel["ivs"]):
+            for j, cj in enumerate(skel["locs"]):
+                if ci != cj:
+                    continue
+                inside = z3.And(x[f"s{i}"].t <= x[f"p{j}"].t, x[f"p{j}"].t < x[f"e{i}"].t)
+                pairs.append((i, inside, x[f"p{j}"].t - x[f"s{i}"].t))
+        cnt = lambda ps: z3.Sum([z3.If(ins, 1, 0) for _, ins, _ in ps]) if ps else z3.IntVal(0)
+        conds = [cnt(pairs) == K]
+        for q, (i, ins, rel) in enumerate(pairs):
+            rank = cnt(pairs[:q])
+            conds.append(z3.Implies(ins, z_or([z3.And(rank == k, TI(out["pos"][k]) == rel) for k in range(K) if out["chrom"][k] == str(i)])))
+        return z_and(conds)
+
+    def oracle(self, skel, cx, cout):
+        if isinstance(cout, Exc):
+            return f"map_locations raised {cout!r}"
+        from checks.C09 import GENOMES as G9
+        names = list(G9[skel["genome"]])
+        exp = [(str(i), cx[f"p{j}"] - cx[f"s{i}"]) for i, ci in enumerate(skel["ivs"]) for j, cj in enumerate(skel["locs"])
+               if ci == cj and cx[f"s{i}"] <= cx[f"p{j}"] < cx[f"e{i}"]]
+        got = list(zip(cout["chrom"], [int(v) for v in cout["pos"]]))
+        if got == exp:
+            return None
+        ivs = [(names[c], cx[f"s{i}"], cx[f"e{i}"]) for i, c in enumerate(skel["ivs"])]
+        locs = [(names[c], cx[f"p{j}"]) for j, c in enumerate(skel["locs"])]
+        return f"map_locations of {locs} into intervals {ivs}: (interval, relative position) = {got}, expected {exp}"
+
+
+HARNESSES = [Coords(), GenomeOps(), Binned(), ValuesUnderIntervals(), GeometryOps(), MapLocations()]
